@@ -256,6 +256,10 @@ def run(ctx):
     C11.r6_every_write_under_buffer_lock(ctx)   # the records of one packet (payload pieces and their Waste frames) are not interleaved with another writer's
     C11.r2_contiguity(ctx)
     r6_flushed_before_success(ctx)
+    from . import C20
+    _reach = C20.input_reachable(ctx)
+    C20.r11_counted_loops(ctx, _reach)     # a scheme's numbers size no loop or table without a bound (a pushed `stop=4294967295`)
+    C20.r13_slice_indices(ctx, _reach)     # slices of the payload buffer are covered by its length
     r1_waste_frames(ctx)
     r2_size_conversions(ctx)
     r3_conservation(ctx)
